@@ -267,6 +267,9 @@ namespace detail {
         ::std::vector<store_rec>* hist = nullptr;
         ::std::vector<seen_rec>* seen = nullptr;   // MAXF small lists, flattened: [fiber*4 + k]
         int last_sc = 0;
+        // construction is a plain (non-atomic) write by the constructing fiber: every later access must happen after it
+        int init_f = -1; uint32_t init_c = 0;
+        atomic_meta() { if (::vrt::rt().active && ::vrt::rt().cur) { init_f = ::vrt::me().id; init_c = ::vrt::me().clock.c[init_f]; } }
         ~atomic_meta() { delete hist; delete seen; }
     };
 }
@@ -288,7 +291,7 @@ struct atomic {
     // harness-only: forget all history (used for objects that outlive a case, e.g. static trip lines)
     void vrt_reset(T x) {
         v = x; delete m.hist; delete m.seen; m.hist = nullptr; m.seen = nullptr;
-        m.rel.clear(); m.has_rel = false; m.rel_head = -1; m.last_sc = 0;
+        m.rel.clear(); m.has_rel = false; m.rel_head = -1; m.last_sc = 0; m.init_f = -1; m.init_c = 0;
     }
     bool weak_mode() const { return ::vrt::rt().active && ::vrt::rt().cur && ::vrt::rt().spec->weak; }
     void ensure_hist() const {
@@ -331,6 +334,8 @@ struct atomic {
         ::vrt::check_live_addr(this, what);
         ::vrt::me().pend = ::vrt::P_NONE;
         ::vrt::point();
+        if (m.init_f >= 0 && m.init_f != ::vrt::me().id && m.init_c > ::vrt::me().clock.c[m.init_f])
+            ::vrt::fail("race", ::std::string(what) + " by f" + ::std::to_string(::vrt::me().id) + " is not ordered after the construction of the atomic object by f" + ::std::to_string(m.init_f));
     }
 
     T load(::std::memory_order o = ::std::memory_order_seq_cst) const noexcept {
